@@ -23,6 +23,9 @@ pub struct PacketConn<RW: Read + Write> {
     // whether the previous packet of the current message was a full (U24_MAX) one, in which case
     // the message must be terminated by another (possibly empty) packet
     last_full: bool,
+    // an I/O error that occurred where it could not be returned (when a result writer is
+    // finalized on drop); it is reported by the next flush instead
+    deferred_error: Option<io::Error>,
 }
 
 impl<W: Read + Write> Write for PacketConn<W> {
@@ -39,6 +42,9 @@ impl<W: Read + Write> Write for PacketConn<W> {
     }
 
     fn flush(&mut self) -> io::Result<()> {
+        if let Some(e) = self.deferred_error.take() {
+            return Err(e);
+        }
         self.maybe_end_packet()?;
         self.rw.flush()
     }
@@ -57,6 +63,7 @@ impl<RW: Read + Write> PacketConn<RW> {
             to_write: vec![0, 0, 0, 0],
             seq: 0,
             last_full: false,
+            deferred_error: None,
             rw,
         }
     }
@@ -79,6 +86,13 @@ impl<W: Read + Write> PacketConn<W> {
 
     pub fn end_packet(&mut self) -> io::Result<()> {
         self.maybe_end_packet()
+    }
+
+    /// Remember an I/O error that cannot be returned to the caller; the next `flush` fails with it.
+    pub(crate) fn defer_error(&mut self, e: io::Error) {
+        if self.deferred_error.is_none() {
+            self.deferred_error = Some(e);
+        }
     }
 
     #[cfg(feature = "tls")]
